@@ -15,17 +15,12 @@ Print Assumptions C09_counts_spec.
 (* Relative mode: the scan over (prelast, last, unit, next) cuts between U[p]
    and U[p+1] exactly when cut_rel holds: 1 <= p, p+2 < |U| and (dip or one of
    the two units is the utterance marker). *)
-Theorem C09_relative_scan : forall tp U, 3 <= length U ->
+Theorem C09_relative_scan : forall tp U,
   threshold_relative tp U = Ok (split_by (cut_rel tp U) U).
 Proof. exact threshold_relative_spec. Qed.
 Print Assumptions C09_relative_scan.
 
-Theorem C09_relative_short : forall tp U, length U < 3 ->
-  threshold_relative tp U = Raise IndexError.
-Proof. exact threshold_relative_short. Qed.
-Print Assumptions C09_relative_short.
-
-Theorem C09_absolute_scan : forall below U, 1 <= length U ->
+Theorem C09_absolute_scan : forall below U,
   threshold_absolute below U = Ok (split_by (cut_abs below U) U).
 Proof. exact threshold_absolute_spec. Qed.
 Print Assumptions C09_absolute_scan.
@@ -44,20 +39,18 @@ Print Assumptions C09_split_bounds.
 (* end to end on the word lists produced by segment(): *)
 Theorem C09_relative : forall text train_text d,
   let U := units_of text in let T := train_units_of text train_text in
-  3 <= length U ->
   cwords_of text train_text Relative d = Ok (split_by (cut_rel (dep_value d T) U) U).
 Proof. exact cwords_relative_spec. Qed.
 Print Assumptions C09_relative.
 
 Theorem C09_absolute : forall text train_text d,
   let U := units_of text in let T := train_units_of text train_text in
-  1 <= length U ->
   cwords_of text train_text Absolute d
   = Ok (split_by (cut_abs (fun a b => le_mean d (type_values d T) (dep_value d T a b)) U) U).
 Proof. exact cwords_absolute_spec. Qed.
 Print Assumptions C09_absolute.
 
-Theorem C09_segment_is_render_of_cwords : forall text train_text t d,
+Theorem C09_segment_is_render_of_cwords : forall text train_text t d, text <> [] ->
   segment text train_text t d = do cw <- cwords_of text train_text t d; Ok (render cw).
 Proof. exact segment_eq_render. Qed.
 Print Assumptions C09_segment_is_render_of_cwords.
